@@ -9,7 +9,7 @@ for l in open('/verif/properties.jsonl'):
 
 # id -> (technique, level text, level note, design ref, engine)
 CHECKS = {
-    'C01': ("proptest over typed SIP values (methods, URIs in every print context, name-addr, 30 typed header kinds, whole messages through the real send_outgoing_* path) + exhaustive enumeration of all 65 536 status codes; oracle = field-wise comparison with the generated value, RFC 3261 Table 1 expectation rules, print/parse/print fixpoint, independent re-read of the printed text (ref_sip)",
+    'C01': ("proptest over typed SIP values (methods, URIs in every print context, name-addr, 30 typed header kinds, whole messages through the real send_outgoing_* path) + exhaustive enumeration of all 65 536 status codes; oracle = field-wise comparison with the generated value, RFC 3261 Table 1 expectation rules, print/parse/print fixpoint, independent re-read of the printed text (ref_sip), look-ups in the re-parsed message with application-defined names (Name::custom: equality from both sides, contains, remove vs a case-insensitive model)",
             "exploration: full u16 code domain exhaustive; all other value kinds sampled with weights on %, reserved and multi-byte characters, Table-1 relevant parameter names, method tokens derived from well-known names",
             "trusts ref_sip (independent RFC 3261 splitter / percent-decoder), the mock transport; generators stay inside the documented grammars (qdtext display names, raw token components)",
             "DESIGN.md 3/C01", "E-codec"),
@@ -45,7 +45,7 @@ CHECKS = {
             "exploration: status-code and routing-grid sub-spaces exhaustive, request shapes (1..5 Via values, parameters, display names, IPv4/IPv6/host names, datagram and inbound/outbound connections) sampled",
             "trusts ref_route, WireMsg, mock transports; shapes of the two open findings are excluded by construction and counted",
             "DESIGN.md 3/C09", "E-world"),
-    'C10': ("exhaustive enumeration of arrival permutations (n<=4, thorough n<=5/6) x roles x start CSeq values incl. u32::MAX, of guard-drop positions and of back-to-back bursts + proptest over arrival sequences with duplicates, near-miss keys, ACKs, guard drops; oracle = independent reorder-buffer reference model (ref_reorder)",
+    'C10': ("exhaustive enumeration of arrival permutations (n<=4, thorough n<=5/6) x roles x start CSeq values incl. u32::MAX, of guard-drop positions, of back-to-back bursts and of wide backlogs (63..200, thorough ..255 requests held behind one missing number, three arrival orders) + proptest over arrival sequences with duplicates, near-miss keys, ACKs, guard drops; oracle = independent reorder-buffer reference model (ref_reorder)",
             "exploration, exhaustive over the stated permutation sub-spaces for UAS- and UAC-created dialogs; random sequences sampled; decides exactly-once, increasing CSeq order, release in the step the gap is filled, pass-through of non-matching requests and of the ACK, silence after guard drop, empty backlog, no overflow at u32::MAX",
             "trusts ref_reorder, tokio's paused clock, hook H3 (backlog size); single-threaded cooperative schedules only; the open finding (overlapping arrivals interleaved) is keyed by a narrow signature",
             "DESIGN.md 3/C10", "E-world"),
